@@ -104,11 +104,13 @@ pub struct Sub {
     pub rule: String,
     /// run cases sequentially on one thread (process-global seams)
     pub serial: bool,
+    /// cases are expensive (compiler / cargo runs): no determinism re-execution, samples come from the main run
+    pub expensive: bool,
 }
 
 impl Sub {
     pub fn new(name: impl Into<String>, len: u64, rule: impl Into<String>, run: impl Fn(u64, bool) -> Outcome + Send + Sync + 'static) -> Sub {
-        Sub { name: name.into(), len, run: Box::new(run), witnesses: Vec::new(), rule: rule.into(), serial: false }
+        Sub { name: name.into(), len, run: Box::new(run), witnesses: Vec::new(), rule: rule.into(), serial: false, expensive: false }
     }
     pub fn witness(mut self, w: &[&'static str]) -> Sub {
         self.witnesses.extend_from_slice(w);
@@ -116,6 +118,10 @@ impl Sub {
     }
     pub fn serial(mut self) -> Sub {
         self.serial = true;
+        self
+    }
+    pub fn expensive(mut self) -> Sub {
+        self.expensive = true;
         self
     }
 }
@@ -157,6 +163,7 @@ struct Agg {
     violations: Vec<(u64, Violation)>,
     violation_count: u64,
     machinery: Vec<String>,
+    samples: Vec<(u64, Value)>,
 }
 
 impl Agg {
@@ -180,9 +187,19 @@ impl Agg {
             }
         }
         self.machinery.extend(o.machinery);
+        for x in o.samples {
+            if self.samples.len() < 3 {
+                self.samples.push(x);
+            }
+        }
         self
     }
-    fn add(&mut self, idx: u64, o: Outcome) {
+    fn add(&mut self, idx: u64, mut o: Outcome) {
+        if let Some(sm) = o.sample.take() {
+            if self.samples.len() < 3 {
+                self.samples.push((idx, sm));
+            }
+        }
         self.evals += o.evals;
         self.cases += 1;
         self.nontrivial += o.nontrivial;
@@ -301,7 +318,7 @@ pub fn run_property(prop: Property, cfg: &RunCfg) -> i32 {
                 stop.store(true, Ordering::Relaxed);
                 return agg;
             }
-            match run_case(sub, idx, false) {
+            match run_case(sub, idx, sub.expensive) {
                 Ok(o) => {
                     done.fetch_add(1, Ordering::Relaxed);
                     agg.add(idx, o)
@@ -325,7 +342,11 @@ pub fn run_property(prop: Property, cfg: &RunCfg) -> i32 {
         capped_any |= capped;
 
         // determinism guard: first case and every violating case executed again, digests must agree
-        if sub.len > 0 {
+        if sub.expensive {
+            for (i, sm) in agg.samples.iter() {
+                samples.push(json!({"sub": sub.name, "index": i, "case": sm}));
+            }
+        } else if sub.len > 0 {
             let a = run_case(sub, 0, true);
             let b = run_case(sub, 0, true);
             match (a, b) {
@@ -352,6 +373,10 @@ pub fn run_property(prop: Property, cfg: &RunCfg) -> i32 {
         let mut viols = agg.violations.clone();
         viols.sort_by_key(|v| v.0);
         for (idx, v) in viols.iter() {
+            if sub.expensive {
+                all_viol.push((sub.name.clone(), *idx, v.clone()));
+                continue;
+            }
             match run_case(sub, *idx, true) {
                 Ok(o2) => {
                     if !v.env_dependent && !o2.violations.iter().any(|w| w.key == v.key && w.msg == v.msg) {
